@@ -140,6 +140,17 @@ func (db *DB) VerifTxnMarkDoneUntil() uint64 { return db.orc.txnMark.DoneUntil()
 // VerifReadMarkDoneUntil returns the pending-reads watermark.
 func (db *DB) VerifReadMarkDoneUntil() uint64 { return db.orc.readMark.DoneUntil() }
 
+// VerifSetManifestRewriteThreshold lowers the number of deletions after which the MANIFEST is
+// rewritten (the unit tests set the same field), so that rewrites are reachable with few tables.
+func (db *DB) VerifSetManifestRewriteThreshold(n int) {
+	if db.manifest == nil || db.opt.InMemory {
+		return
+	}
+	db.manifest.appendLock.Lock()
+	db.manifest.deletionsRewriteThreshold = n
+	db.manifest.appendLock.Unlock()
+}
+
 // VerifValidateLevels runs the level validation that Open runs.
 func (db *DB) VerifValidateLevels() error { return db.lc.validate() }
 
